@@ -622,7 +622,9 @@ EFFECTS = [(r"\.make_uninit\(\)", "MakeUninit"), (r"mem::replace\(&mut \(\*rcbox
            (r"Rc::weak_count\(&?this\) == 0", "TestWeakCountZero"), (r"Self::new_uninit\(\)", "NewUninit"),
            (r"\.clone\(\)", "CloneValue"), (r"copy_from_nonoverlapping\(", "CopyValue"),
            (r"\*this = rc\.assume_init\(\)", "AssignDropOld"), (r"ptr::write\(this, rc\.assume_init\(\)\)", "OverwriteNoDrop"),
-           (r"\bOk\(val\)", "ReturnOk"), (r"\bErr\(this\)", "ReturnErr"), (r"\breturn;", "Return")]
+           (r"\bOk\(val\)", "ReturnOk"), (r"\bErr\(this\)", "ReturnErr"), (r"\breturn;", "Return"),
+           (r"ManuallyDrop::new\(", "ManuallyDropNew"), (r"Rc::(?:<T>::)?from_raw\(", "FromRaw"), (r"\bdrop\(Rc::from_raw\(", "DropFromRaw"),
+           (r"Self::as_ptr\(", "AsPtr"), (r"data_offset\(", "DataOffset"), (r"Self::from_ptr\(", "FromPtr")]
 EFF_RE = re.compile("|".join("(?P<e%d>%s)" % (i, p) for i, (p, _) in enumerate(EFFECTS)))
 
 
@@ -668,7 +670,11 @@ def translate_effects(repo):
     text = ("(* GENERATED by tools/rs2v.py from %s -- do not edit. *)\n"
             "From Coq Require Import List. Import ListNotations.\nFrom Gen Require Import EffectsLang.\n\n" % path)
     rc_src = re.sub(r"//[^\n]*", "", open(repo + "/src/rc.rs").read())
-    for name, hdr in (("try_unwrap", r"pub fn try_unwrap\(this: Self\) -> Result<T, Self> \{"),
+    for name, hdr in (("increment_strong_count", r"pub unsafe fn increment_strong_count\(ptr: \*const T\) \{"),
+                      ("decrement_strong_count", r"pub unsafe fn decrement_strong_count\(ptr: \*const T\) \{"),
+                      ("into_raw", r"pub fn into_raw\(this: Self\) -> \*const T \{"),
+                      ("from_raw", r"pub unsafe fn from_raw\(ptr: \*const T\) -> Self \{"),
+                      ("try_unwrap", r"pub fn try_unwrap\(this: Self\) -> Result<T, Self> \{"),
                       ("make_mut", r"pub fn make_mut\(this: &mut Self\) -> &mut T \{"),
                       ("weak_drop", r"unsafe impl<#\[may_dangle\] T> Drop for Weak<T> \{\s*fn drop\(&mut self\) \{")):
         body = _norm(_fn_body(rc_src, hdr))
